@@ -64,6 +64,7 @@ type HarnessRun struct {
 	Traces        []*PathTrace // sampled completed paths with model + observations
 	Assumes       int
 	maxTraces     int
+	UsedOverrides bool
 	CrossChecked  int
 	CrossDisagree int
 }
@@ -566,7 +567,7 @@ func (e *Exec) finishPath(st *State, panicked bool) {
 		}
 		return
 	}
-	if len(h.Traces) >= h.maxTraces || len(st.obs) == 0 || st.obsBad {
+	if len(h.Traces) >= h.maxTraces || st.obsBad {
 		return
 	}
 	r := e.sol.CheckKeep(st.pc)
